@@ -511,7 +511,7 @@ package actor
 // mail reaches the fallback (root) mailbox - where it is dead-lettered - only while it does not resolve.
 //@ func (*remoting.ServerActor).GetRemotingMailboxCentral
 //@   trusted
-//@   ensures result != nil
+//@   ensures result != nil && remoting.mcwf(result)
 // the registry holds live contexts (with their mailboxes) and futures
 //@ pure regwf(s *System) bool = forall k any :: smhas(&s.actorContexts, k) && typeis(smval(&s.actorContexts, k), "*actor.Context") ==>
 //@     !nilptr(smval(&s.actorContexts, k)) && unboxed(smval(&s.actorContexts, k), "*actor.Context").mailbox != nil
